@@ -107,11 +107,11 @@ theorem runCases_append (env : Env Ov) : ∀ (st : State) (pre rest : List (Case
 
 theorem coreResults_cons_core (c : Case Ov) (cs : List (Case Ov)) (r : CaseResult) (rs : List CaseResult)
     (h : isCore c = true) : coreResults (c :: cs) (r :: rs) = r :: coreResults cs rs := by
-  simp [coreResults, List.zip, List.filter, h]
+  simp [coreResults, List.zip, h]
 
 theorem coreResults_cons_aux (c : Case Ov) (cs : List (Case Ov)) (r : CaseResult) (rs : List CaseResult)
     (h : isCore c = false) : coreResults (c :: cs) (r :: rs) = coreResults cs rs := by
-  simp [coreResults, List.zip, List.filter, h]
+  simp [coreResults, List.zip, h]
 
 theorem core_run (env : Env Ov) : ∀ (st : State) (cs : List (Case Ov)), NoAuxFatal env st cs →
     coreResults cs (runCases env st cs).1 = (runCases env st (core cs)).1 ∧
